@@ -54,7 +54,10 @@ def cpp_checks(oc, out, cd, info, compile_ok):
         concrete = not c.IS_ENUM and not c.IS_STRUCT and not c.AUTOGEN and not c.PURE_VIRTUAL_INTERFACE
         if not concrete:
             continue
-        h, s = by_name.get(c.NAME + ".h"), by_name.get(c.NAME + ".cpp")
+        # (with namespace folders two packages may each have an element of that name: the file in the element's own folder)
+        own = os.path.join(*[x for x in c.NAMESPACE.split("::") if x], c.NAME) if c.NAMESPACE else c.NAME
+        h = (own + ".h") if (own + ".h") in files else by_name.get(c.NAME + ".h")
+        s = (own + ".cpp") if (own + ".cpp") in files else by_name.get(c.NAME + ".cpp")
         if not h or not s:
             continue        # reported by the file-set comparison
         decls = umlmut.header_decls(files[h], c.NAME)
@@ -218,12 +221,15 @@ def run(tier):
     runner = genlib.Runner()        # (parsed_elems re-imports kojen: the runner and sys.modules must name the same modules again)
     with scratch() as base:
         for i in range(70 if thorough else 18):
-            spec = umlsynth.rand_spec(r, wellformed=True, relations=r.random() < 0.85, focus="packed" if i % 3 == 0 else None)
+            spec = umlsynth.rand_spec(r, wellformed=True, relations=r.random() < 0.85, focus="packed" if i % 3 == 0 else ("twins" if i % 6 == 2 else None))
             if any(c.get("packed") for c in spec["classes"]):
                 oc.stat("synth_models_with_packed_struct")
             backend = r.choice(["uml", "uml", "umlcs"])
-            model = dict(kind="uml", backend=backend, project=genlib.BLOB, diagram=spec["diagram"], ns_folders=r.random() < 0.5,
+            model = dict(kind="uml", backend=backend, project=genlib.BLOB, diagram=spec["diagram"], ns_folders=(r.random() < 0.5) or i % 6 == 2,
                          dclspc=r.choice(["", "MY_API"]), synth=spec)
+            if i % 6 == 2:
+                model["backend"] = backend = "uml"
+                oc.stat("synth_models_with_like_named_elements_in_two_packages")
             info = dict(model=model, edits=[["synthesised"]])
             out = os.path.join(base, "s%d" % i)
             try:
